@@ -544,6 +544,18 @@ def discharge(ctx, F, ps):
         return 'compiler-inserted reference validity check (debug assertions), not a source-level panic'
     if ps.kind == 'overflow' and ps.detail == 'Add':
         return 'class: addition of in-memory lengths / byte counts'
+    if ps.kind == 'overflow' and ps.detail == 'Mul' and ps.term is not None:
+        # product of in-memory collection lengths / constants (capacity hints of a cartesian product): each factor is bounded
+        # by the size of an allocation that already exists; the property's untrusted quantities are integers READ from
+        # input, which are neither
+        cond = ps.term['cond']
+        l = op_place(cond)['l'] if is_place(cond) else None
+        for d in ([d for d in body.defs().get(l, []) if d.kind == 'assign'] if l is not None else []):
+            if d.rv['k'] == 'bin' and d.rv['op'] == 'MulWithOverflow':
+                ka, kb = lib.classify_scalar(body, d.rv['a']), lib.classify_scalar(body, d.rv['b'])
+                if ka[0] in ('len', 'const') and kb[0] in ('len', 'const') and (ka[0], kb[0]) != ('const', 'const'):
+                    return 'class: product of in-memory lengths / constants'
+        return None
     if ps.kind == 'index' and ps.call is not None and len(ps.call.args) == 2:
         c = ps.call
         ra = lib.range_arg(body, c.args[1])
